@@ -714,7 +714,7 @@ func explicitPrefix(e *Env, fv *foundViolation) []workerlib.ExplicitRun {
 		} else if to := ses.From + fv.V.RunIndex + 1; to < ses.To {
 			ses.To = to
 		}
-	case "solo", "wrap", "overlap", "stall":
+	case "solo", "wrap", "overlap", "stall", "retain":
 		if to := ses.From + fv.V.RunIndex + 1; to < ses.To {
 			ses.To = to
 		}
